@@ -52,9 +52,9 @@ PROPS["C12"] = {
     "units": [{
         "pkg": "primitives/sr25519", "configs": ALL4,
         "tests": {
-            "TestC12Sign": T(1200, 40000, shards={"quick": 6, "thorough": 16}),
+            "TestC12Sign": T(1200, 30000, shards={"quick": 6, "thorough": 16}),
             "TestC12SigBits": LIST(),
-            "TestC12Batch": T(400, 16000, shards={"quick": 4, "thorough": 16}),
+            "TestC12Batch": T(400, 12000, shards={"quick": 4, "thorough": 16}),
             "TestC12Decode": T(4000, 160000),
             "TestC12DecodeList": LIST(),
         },
